@@ -238,6 +238,37 @@ def _misc(spec, ctx, R):
         ctx.distinct("realp_scalar", q.w, q.x, q.y, q.z)
         got = U.Realp(float(q.w), float(q.x), float(q.y), float(q.z))
         ctx.check("realp_entrywise", _eq(got, embed.Lq(q)), site="Realp:scalar")
+    # the same values in other numeric types: Python ints / numpy scalars in the scalar form, integer or float32 component
+    # planes mixed with float64 planes in the matrix form (the embedding only copies and negates, so the result must carry
+    # every value exactly, whatever the dtype of the plane it came from)
+    for rep in range(24):
+        comp = [float(v) for v in rng.integers(-4, 5, size=4)]
+        frac = [v + (0.5 if rng.random() < 0.6 else 0.0) for v in rng.integers(-3, 4, size=4)]
+        mix = [int(comp[0]) if rep % 2 == 0 else frac[0], frac[1], int(comp[2]) if rep % 3 == 0 else frac[2], frac[3]]
+        qm = np.quaternion(*[float(v) for v in mix])
+        forms = {"python_mixed": mix, "numpy_scalars": [np.float64(v) for v in mix], "int_real_part": [0, frac[1], frac[2], frac[3]]}
+        for lab, vals in forms.items():
+            qq = np.quaternion(*[float(v) for v in vals])
+            try:
+                got = np.asarray(U.Realp(*vals), dtype=float)
+                ok = _eq(got, embed.Lq(qq))
+            except Exception as e:
+                ok = False
+            ctx.check("realp_entrywise", ok, site="Realp:scalar:" + lab, detail={"values": [repr(v) for v in vals]})
+        m, n = int(rng.integers(1, 4)), int(rng.integers(1, 4))
+        planes_f = [np.round(rng.standard_normal((m, n)) * 4.0) / 2.0 for _ in range(4)]      # multiples of 1/2
+        ip = int(rng.integers(0, 4))
+        planes = [p.copy() for p in planes_f]
+        planes[ip] = np.round(planes[ip]).astype([np.int64, np.int32, np.float32, np.int8][rep % 4])   # one plane in another dtype
+        planes_f[ip] = planes[ip].astype(float)
+        Aq = refq.qa(np.stack(planes_f, axis=-1))
+        ctx.distinct("realp_mixed_dtype", Aq, ip, rep % 4)
+        try:
+            got = np.asarray(U.Realp(*planes), dtype=float)
+            ok = _eq(got, embed.real_blocked(Aq))
+        except Exception as e:
+            ok = False
+        ctx.check("realp_entrywise", ok, site="Realp:mixed_dtype_planes", detail={"plane": ip, "dtype": str(planes[ip].dtype), "shape": [m, n]})
     # contraction rejects a wrongly-sized matrix (shape coupling), accepts the right one
     A = refq.randq(rng, 2, 3)
     E = embed.real_interleaved(A)
